@@ -268,4 +268,28 @@ theorem tdMap_rt (env : Env) (pf : Flags) (pk : CompKind) :
       · exact hacc kv hm
 end
 
+/-! ### leaves whose keywords are all kept by the dumper -/
+
+/-- no keyword repeats a type default of a leaf parsed in source `env` (such a keyword is elided by the
+    dumper: findings D17a / D17f / D17g) -/
+def noDefaultKw (env : Env) (kw : CtorKw) : Bool :=
+  kw.prio != some Tables.defaultPriority && kw.del != some Tables.defaultDeleteNode &&
+  kw.new != some Tables.defaultAllowNew && kw.safe != some env.dSafe
+
+theorem keepFlag_top {α : Type} [DecidableEq α] (cur : Option α) (d : α) (h : cur ≠ some d) :
+    keepFlag cur none d = cur := by
+  cases cur with
+  | none => rfl
+  | some c =>
+    have : c ≠ d := fun e => h (by rw [e])
+    simp [keepFlag, this]
+
+/-- at the top of the dumper's stack every keyword of such a leaf is written -/
+theorem nodeInfo_leaf_top (env : Env) (kw : CtorKw) (k : LeafKind) (h : noDefaultKw env kw = true) :
+    nodeInfo {} (.leaf (mkFlags env kw) k) = kw := by
+  simp only [noDefaultKw, Bool.and_eq_true, bne_iff_ne, ne_eq] at h
+  obtain ⟨⟨⟨h1, h2⟩, h3⟩, h4⟩ := h
+  simp only [nodeInfo, Node.flags, mkFlags, Node.defaultDel, keepFlag_top _ _ h1, keepFlag_top _ _ h2,
+    keepFlag_top _ _ h3, keepFlag_top _ _ h4]
+
 end AY
